@@ -6,7 +6,7 @@ import PycsepVerif.Model.Ecdf
         delta1 = 1.0 - scipy.stats.poisson.cdf(obs_cnt - epsilon, fore_cnt)
         delta2 = scipy.stats.poisson.cdf(obs_cnt + epsilon, fore_cnt)
     csep/core/binomial_evaluations.py:9    _nbd_number_test_ndarray(fore_cnt, obs_cnt, variance, epsilon=1e-6)
-        upsilon = 1.0 - ((var - mean) / var);  tau = mean**2 / (var - mean)
+        upsilon = mean / var;  tau = mean**2 / (var - mean)        (fix D47; before: 1.0 - ((var - mean) / var))
         delta1 = 1.0 - nbinom.cdf(obs_cnt - epsilon, tau, upsilon);  delta2 = nbinom.cdf(obs_cnt + epsilon, tau, upsilon)
     csep/core/catalog_evaluations.py:26    number_test: get_quantiles(event_counts, obs_count)   (C09's model)
 
@@ -61,8 +61,14 @@ def delta12With (cdf : α → α) (n : Nat) (ε : α) : α × α :=
 /-- poisson_evaluations._number_test_ndarray(fore_cnt = μ, obs_cnt = n, epsilon = ε) -/
 def delta12 [FloorOps α] (μ : α) (n : Nat) (ε : α) : α × α := delta12With (poisCdf μ) n ε
 
-/-- NBD parameters exactly as the code forms them: (tau, upsilon) = (mean²/(var−mean), 1 − (var−mean)/var) -/
+/-- NBD parameters exactly as the code forms them: (tau, upsilon) = (mean²/(var−mean), mean/var)
+    (binomial_evaluations.py:24-25; until fix D47 the code formed upsilon as 1 − (var−mean)/var, see `nbdParamsOld`) -/
 def nbdParams (mean var : α) : α × α :=
+  (div (mul mean mean) (sub var mean), div mean var)
+
+/-- the parameters as the code formed them BEFORE fix D47: upsilon = 1.0 − ((var − mean)/var) — the same real number,
+    three roundings instead of one; kept for the findings about the old code -/
+def nbdParamsOld (mean var : α) : α × α :=
   (div (mul mean mean) (sub var mean), sub one (div (sub var mean) var))
 
 /-- binomial_evaluations._nbd_number_test_ndarray(fore_cnt = mean, obs_cnt = n, variance = var, epsilon = ε) -/
